@@ -1,1 +1,403 @@
-/-! # C12 — property theorems (not built yet) -/
+import RsMatterVerif.Lemmas.Counters
+/-!
+# C12 — durable counters never hand out the same value twice, across restarts too
+
+Theorems over `Model/Counters.lean`, for **every** history of operations (`List …Op`): power
+losses (`crash` / `boot`) may stand before or after every individual store, in any number.
+
+Shape, per counter:
+* `…_invariant`       every reachable state satisfies the ghost invariant (`GInv` / `EInv` / `CInv`
+                      of `Lemmas/Counters.lean`): each cyclic value is the image of an unbounded
+                      position and the safety facts are inequalities between positions;
+* `…_values_distinct` the values that reached the wire are pairwise distinct, as long as the
+                      history consumed less than one cycle of the counter range — the bound is
+                      explicit (`gCost`, `eCost`, `cCost`: one position per reservation, one epoch
+                      per power loss, `delta` per jump). A cyclic counter necessarily repeats after
+                      a full cycle, so this is the full strength available;
+* `…_used_only_if_covered`  whenever a value is (or can be) used, a boundary is in storage and its
+                      position is strictly past the value's position (Check-In: not before it,
+                      because a restart resumes with `boundary + 1`);
+* `…_restart_resumes_past_used`  the state after a power loss continues at a position past every
+                      used position, and its first value is none of the used values;
+* `…_boundary_reached` the `live == boundary` equality test cannot be stepped over.
+-/
+namespace C12
+open Counters
+
+/-! ## 1. Global group data message counter -/
+
+/-- reachable states and their ghosts -/
+def gReach (d0 : Option Nat) (ops : List GOp) : GSys × GGhost :=
+  (gRun (GSys.boot d0) ops, gGhostRun (GSys.boot d0) (GGhost.boot d0) ops)
+
+/-- Every history keeps the ghost invariant. -/
+theorem group_invariant (d0 : Option Nat) (h : GStart d0) (ops : List GOp) :
+    GInv (gReach d0 ops).1 (gReach d0 ops).2 :=
+  ginv_run ops (ginv_boot d0 h)
+
+/-- the ghost consumes at most `gCost ops` positions -/
+theorem group_spent_le (d0 : Option Nat) (ops : List GOp) : (gReach d0 ops).2.spent ≤ gCost ops := by
+  have := gspent_run ops (GSys.boot d0) (GGhost.boot d0)
+  have h0 : (GGhost.boot d0).spent = 0 := by cases d0 <;> rfl
+  simp only [gReach]; omega
+
+/-- **Wire values are pairwise distinct** (also against the values still waiting in exchanges), for
+every history that consumes at most one cycle of the 28-bit range: `gCost ops ≤ mask`, i.e.
+`#reservations + 1000 · #power-losses ≤ 2^28 − 1`. -/
+theorem group_wire_values_distinct (d0 : Option Nat) (h : GStart d0) (ops : List GOp)
+    (hb : gCost ops ≤ mask) :
+    ((gReach d0 ops).1.ready ++ (gReach d0 ops).1.used).Nodup :=
+  ginv_values_nodup (group_invariant d0 h ops) (Nat.le_trans (group_spent_le d0 ops) hb)
+
+theorem group_used_values_distinct (d0 : Option Nat) (h : GStart d0) (ops : List GOp)
+    (hb : gCost ops ≤ mask) : (gReach d0 ops).1.used.Nodup :=
+  (List.nodup_append.mp (group_wire_values_distinct d0 h ops hb)).2.1
+
+/-- **A value is used only when a durable boundary covers it**: in every reachable state, every
+value that reached the wire and every value that can still reach it (stashed in an exchange) sits
+at a position strictly before the position of the boundary held in storage — and such a boundary
+exists. Unconditional (no cycle bound needed: it is a statement about positions). -/
+theorem group_used_only_if_covered (d0 : Option Nat) (h : GStart d0) (ops : List GOp) :
+    let s := (gReach d0 ops).1
+    let g := (gReach d0 ops).2
+    s.ready = g.rpos.map gval ∧ s.used = g.upos.map gval ∧
+    ∀ p ∈ g.rpos ++ g.upos, ∃ d, s.durable = some d ∧ gnorm d = gval g.dpos ∧ p < g.dpos := by
+  intro s g
+  have hi : GInv s g := group_invariant d0 h ops
+  refine ⟨hi.ready_eq, hi.used_eq, ?_⟩
+  intro p hp
+  have hlt : p < g.dpos := by
+    rcases List.mem_append.mp hp with h1 | h1
+    · exact (hi.rrange p h1).2.2
+    · exact (hi.urange p h1).2.2
+  cases hd : s.durable with
+  | none =>
+    have := hi.nodur hd
+    rcases List.mem_append.mp hp with h1 | h1
+    · rw [this.1] at h1; exact absurd h1 (by simp)
+    · rw [this.2.1] at h1; exact absurd h1 (by simp)
+  | some d => exact ⟨d, rfl, (hi.dur d hd).2.1, hlt⟩
+
+/-- the caller may stash (and later send) a reserved value only after the store, and at that moment
+the stored boundary is ahead of the value by at least one and at most one epoch of positions -/
+theorem group_stash_within_epoch (d0 : Option Nat) (h : GStart d0) (ops : List GOp) (v : Nat)
+    (hv : (gReach d0 ops).1.inflight = some (v, none)) :
+    let g := (gReach d0 ops).2
+    (gReach d0 ops).1.durable ≠ none ∧ v = gval (g.lpos - 1) ∧
+      g.lpos - 1 < g.dpos ∧ g.dpos ≤ g.lpos - 1 + gEpoch := by
+  intro g
+  have hi : GInv (gReach d0 ops).1 g := group_invariant d0 h ops
+  obtain ⟨_, h1, h2, _, h4⟩ := hi.infl v none hv
+  obtain ⟨h5, h6, h7⟩ := h4 rfl
+  exact ⟨h5, h2, by omega, by omega⟩
+
+/-- **A restart resumes strictly past every used value**: after a power loss in any reachable
+state with a stored boundary, the live counter sits at the position of that boundary, which is
+past the position of every value that reached the wire. -/
+theorem group_restart_resumes_past_used (d0 : Option Nat) (h : GStart d0) (ops : List GOp) :
+    let s' := (gReach d0 (ops ++ [.crash])).1
+    let g' := (gReach d0 (ops ++ [.crash])).2
+    (s'.vol.live ≠ 0 → s'.vol.live = gval g'.lpos) ∧ s'.used = g'.upos.map gval ∧
+    ∀ p ∈ g'.upos, p < g'.lpos := by
+  intro s' g'
+  have hi : GInv s' g' := group_invariant d0 h (ops ++ [.crash])
+  refine ⟨fun hl => (hi.vol hl).1, hi.used_eq, fun p hp => ?_⟩
+  have := (hi.urange p hp).2.1
+  omega
+
+theorem gCost_append_crash : ∀ (ops : List GOp), gCost (ops ++ [.crash]) = gCost ops + gEpoch
+  | [] => by simp [gCost]
+  | o :: os => by
+    rw [List.cons_append, gCost_cons, gCost_cons o os, gCost_append_crash os]; omega
+
+/-- … and, within one cycle, the value the restarted node hands out first was never on the wire. -/
+theorem group_restart_value_fresh (d0 : Option Nat) (h : GStart d0) (ops : List GOp)
+    (hb : gCost ops + gEpoch < mask) :
+    let s' := (gReach d0 (ops ++ [.crash])).1
+    s'.vol.live ∉ s'.used := by
+  intro s'
+  have hi : GInv s' (gReach d0 (ops ++ [.crash])).2 := group_invariant d0 h (ops ++ [.crash])
+  have hsp := group_spent_le d0 (ops ++ [.crash])
+  have hc := gCost_append_crash ops
+  have hM := mask_eq
+  intro hm
+  by_cases hl : s'.vol.live = 0
+  · -- an uninitialised counter has no storage, hence nothing was ever used
+    have := (hi.nodur (hi.uninit hl).2.1).2.1
+    rw [hi.used_eq, this] at hm; exact absurd hm (by simp)
+  · have hv := (hi.vol hl).1
+    rw [hi.used_eq] at hm
+    obtain ⟨p, hp, hpv⟩ := List.mem_map.mp hm
+    have hr := hi.urange p hp
+    have hw := hi.window
+    have : p = (gReach d0 (ops ++ [.crash])).2.lpos :=
+      gval_inj (by omega) (by rw [hc] at hsp; omega) (by rw [hpv, ← hv])
+    omega
+
+/-- **The `live == boundary` test cannot be stepped over**: the live position never passes the
+boundary position, stays within one epoch of it, and the equality of the cyclic values holds
+exactly when the positions coincide. -/
+theorem group_boundary_reached (d0 : Option Nat) (h : GStart d0) (ops : List GOp)
+    (hl : (gReach d0 ops).1.vol.live ≠ 0) :
+    let s := (gReach d0 ops).1
+    let g := (gReach d0 ops).2
+    g.lpos ≤ g.bpos ∧ g.bpos ≤ g.lpos + gEpoch ∧ (s.vol.live = s.vol.boundary ↔ g.lpos = g.bpos) := by
+  intro s g
+  have hi : GInv s g := group_invariant d0 h ops
+  obtain ⟨h1, h2, h3, h4⟩ := hi.vol hl
+  refine ⟨h3, h4, ?_, ?_⟩
+  · intro he
+    have hE := gEpoch_eq
+    have hM := mask_eq
+    exact gval_inj h3 (by omega) (by rw [← h1, ← h2]; exact he)
+  · intro he; rw [h1, h2, he]
+
+/-- single steps from `v` -/
+def gIter : Nat → Nat → Nat
+  | 0, v => v
+  | j + 1, v => gIter j (gAdvance v 1)
+
+theorem gIter_val (j : Nat) : ∀ p, gIter j (gval p) = gval (p + j) := by
+  induction j with
+  | zero => intro p; rfl
+  | succ j ih => intro p; simp only [gIter]; rw [gAdvance_one, ih]; congr 1; omega
+
+/-- Arithmetic core of the same fact, stated on values only: stepping by one from any value `v` of
+the range reaches the extended boundary `advance(v, EPOCH)` after exactly `gSpan v` ∈ {999, 1000}
+steps and at no earlier step — also across the wrap, where the epoch covers 999 values because
+0 is skipped. -/
+theorem group_boundary_visited_exactly (v j : Nat) (h1 : 1 ≤ v) (h2 : v ≤ mask) (hj : j ≤ gEpoch) :
+    gIter j v = gAdvance v gEpoch ↔ j = gSpan v := by
+  have hv := gval_pred h1 h2
+  have hE := gEpoch_eq
+  have hM := mask_eq
+  have hs := gSpan_bounds v
+  rw [← hv, gIter_val, gAdvance_epoch, hv]
+  constructor
+  · intro he
+    rcases Nat.le_total j (gSpan v) with hle | hle
+    · have := gval_inj (p := v - 1 + j) (q := v - 1 + gSpan v) (by omega) (by omega) he; omega
+    · have := gval_inj (p := v - 1 + gSpan v) (q := v - 1 + j) (by omega) (by omega) he.symm; omega
+  · intro he; rw [he]
+
+/-- every boundary the code hands to the store is a value of the range (never the 0 marker) -/
+theorem group_stored_boundary_in_range (d0 : Option Nat) (h : GStart d0) (ops : List GOp) (v b : Nat)
+    (hv : (gReach d0 ops).1.inflight = some (v, some b)) : 1 ≤ b ∧ b ≤ mask := by
+  obtain ⟨_, _, _, h3, _⟩ := (group_invariant d0 h ops).infl v (some b) hv
+  rw [(h3 b rfl).1]; exact gval_pos _
+
+/-! ### non-vacuity of the hypotheses and a few concrete runs (tests, not theorems) -/
+
+example : GStart none := fun _ hd => absurd hd (by simp)
+example : GStart (some 268435000) := fun d hd => by
+  simp only [Option.some.injEq] at hd; subst hd; decide
+example : gCost [.reserve 0, .store, .stash, .use 0, .crash, .reserve 0] ≤ mask := by decide
+/-- across the wrap: start 3 below the top, send, lose power, send again -/
+example : (gRun (GSys.boot (some 268435453))
+    [.reserve 0, .store, .stash, .use 0, .reserve 0, .store, .stash, .use 0, .crash,
+     .reserve 0, .store, .stash, .use 0]).used = [997, 268435454, 268435453] := by decide
+/-- a power loss between `reserve` and the store loses the reservation, not the invariant -/
+example : (gRun (GSys.boot (some 268435455)) [.reserve 0, .crash, .reserve 0, .store, .stash, .use 0]).used
+    = [268435455] := by decide
+example : gSpan 268435455 = 999 ∧ gSpan 268434456 = 1000 ∧ gSpan 268434457 = 999 := by decide
+
+/-- Observation outside C12's quantifier (it needs a *failing* store): `reserve` moves the in-memory
+boundary before the caller's store can fail; if the store fails, `initiate_group` returns the error
+and drops the reservation, and the next reservation demands no store although nothing covers it.
+Modelled here by dropping the in-flight reservation by hand. -/
+example :
+    let s1 := gStep (GSys.boot (some 5000)) (.reserve 0)            -- (5000, Some 6000)
+    let s2 := { s1 with inflight := none }                           -- the store failed: error path
+    let s3 := gRun s2 [.reserve 0, .store, .stash, .use 0]           -- (5001, None): no store demanded
+    s3.used = [5001] ∧ s3.durable = some 5000 := by decide
+
+/-! ## 2. Event numbers -/
+
+/-- Every history that stays below the wrap of the u64 keeps the invariant. The bound is explicit:
+start number + `eCost ops` (1 per push, one epoch per power loss) + one epoch + 1 < 2^64. -/
+theorem event_invariant (d0 : Option Nat) (h : EStart d0) (ops : List EOp)
+    (hb : (ESys.boot d0).vol.next + eCost ops + eEpoch + 1 < U64) :
+    EInv (eRun (ESys.boot d0) ops) :=
+  (einv_run ops (einv_boot d0 h) hb).1
+
+/-- **Event numbers are never handed out twice**: newest first, the list of numbers handed out is
+strictly decreasing. -/
+theorem event_numbers_distinct (d0 : Option Nat) (h : EStart d0) (ops : List EOp)
+    (hb : (ESys.boot d0).vol.next + eCost ops + eEpoch + 1 < U64) :
+    (eRun (ESys.boot d0) ops).used.Pairwise (· > ·) ∧ (eRun (ESys.boot d0) ops).used.Nodup := by
+  have hi := event_invariant d0 h ops hb
+  exact ⟨hi.sorted, pairwise_gt_nodup _ hi.sorted⟩
+
+/-- **A number is handed out only when a stored epoch covers it**: in every reachable state
+(in particular right after the `push` that returned it) every number handed out is below the epoch
+value held in storage, and that value is what a restart resumes from. -/
+theorem event_used_only_if_covered (d0 : Option Nat) (h : EStart d0) (ops : List EOp)
+    (hb : (ESys.boot d0).vol.next + eCost ops + eEpoch + 1 < U64) :
+    let s := eRun (ESys.boot d0) ops
+    ∀ u ∈ s.used, ∃ d, s.durable = some d ∧ u < d ∧ (eStep s .crash).vol.next = d := by
+  intro s u hu
+  have hi := event_invariant d0 h ops hb
+  cases hd : s.durable with
+  | none => have := (hi.nodur hd).2; rw [this] at hu; exact absurd hu (by simp)
+  | some d =>
+    have h1 := hi.below u hu
+    have h2 := (hi.dur d hd).2.2.2.1
+    refine ⟨d, rfl, by omega, ?_⟩
+    simp only [eStep, hd, EVol.load]
+
+/-- **A restart resumes strictly past every number handed out.** -/
+theorem event_restart_resumes_past_used (d0 : Option Nat) (h : EStart d0) (ops : List EOp)
+    (hb : (ESys.boot d0).vol.next + eCost ops + eEpoch + 1 < U64) :
+    let s := eRun (ESys.boot d0) ops
+    ∀ u ∈ s.used, u < (eStep s .crash).vol.next := by
+  intro s u hu
+  obtain ⟨d, _, h2, h3⟩ := event_used_only_if_covered d0 h ops hb u hu
+  rw [h3]; exact h2
+
+/-- **The epoch test cannot be stepped over**: the next number never passes the stored epoch value,
+which is always a multiple of the epoch size and at most one epoch ahead. -/
+theorem event_boundary_reached (d0 : Option Nat) (h : EStart d0) (ops : List EOp)
+    (hb : (ESys.boot d0).vol.next + eCost ops + eEpoch + 1 < U64) (d : Nat)
+    (hd : (eRun (ESys.boot d0) ops).durable = some d) :
+    let s := eRun (ESys.boot d0) ops
+    d % eEpoch = 0 ∧ s.vol.next ≤ d ∧ d ≤ s.vol.next + eEpoch := by
+  intro s
+  obtain ⟨h1, _, _, h4, h5⟩ := (event_invariant d0 h ops hb).dur d hd
+  exact ⟨h1, h4, h5⟩
+
+example : EStart none := fun _ hd => absurd hd (by simp)
+example : EStart (some 30000) := fun d hd => by
+  simp only [Option.some.injEq] at hd; subst hd; decide
+example : (ESys.boot (some 30000)).vol.next + eCost [.push, .crash, .push, .pushCrash] + eEpoch + 1 < U64 := by
+  decide
+/-- first boot: the epoch is stored with the very first number -/
+example : (eRun (ESys.boot none) [.push, .push, .crash, .push]).used = [10000, 2, 1] ∧
+    (eRun (ESys.boot none) [.push, .push, .crash, .push]).durable = some 20000 := by decide
+
+/-! ## 3. Check-In counter (under the application protocol the interface prescribes) -/
+
+def cReach (d0 : Option Nat) (init epoch : Nat) (ops : List COp) : CSys × CGhost :=
+  (cRun (CSys.boot d0 init epoch) ops,
+   cGhostRun (CSys.boot d0 init epoch) (CGhost.boot d0 init epoch) ops)
+
+/-- `WellBehaved`: the application stored the boundary whenever the interface told it to (after
+`new`, after `advance`/`advance_by` returned a value) before sending the next Check-In, and called
+`advance` once per batch. It is computed by the model itself (`CSys.well`, see `cStep`, `.use`). -/
+abbrev WellBehaved (d0 : Option Nat) (init epoch : Nat) (ops : List COp) : Prop :=
+  (cReach d0 init epoch ops).1.well = true
+
+theorem checkin_invariant (d0 : Option Nat) (init epoch : Nat) (h : CStart d0 init epoch)
+    (ops : List COp) (hok : ∀ op ∈ ops, COpOk op) :
+    CInv (cReach d0 init epoch ops).1 (cReach d0 init epoch ops).2 :=
+  cinv_run ops (cinv_boot d0 init epoch h) hok
+
+theorem checkin_spent_le (d0 : Option Nat) (init epoch : Nat) (ops : List COp) :
+    (cReach d0 init epoch ops).2.spent ≤ cCost epoch ops := by
+  have := cspent_run ops (CSys.boot d0 init epoch) (CGhost.boot d0 init epoch)
+  have h0 : (CGhost.boot d0 init epoch).spent = 0 := by cases d0 <;> rfl
+  have h1 : (CSys.boot d0 init epoch).ctr.epoch = epoch := rfl
+  rw [h1] at this
+  simp only [cReach]; omega
+
+/-- **Check-In counter values are pairwise distinct** for an obedient application, for every history
+that consumes less than one cycle of the u32: `cCost epoch ops < 2^32` (1 per `advance`, `delta`
+per `advance_by`, one epoch per restart). -/
+theorem checkin_values_distinct (d0 : Option Nat) (init epoch : Nat) (h : CStart d0 init epoch)
+    (ops : List COp) (hok : ∀ op ∈ ops, COpOk op) (hw : WellBehaved d0 init epoch ops)
+    (hb : cCost epoch ops < U32) :
+    (cReach d0 init epoch ops).1.used.Nodup :=
+  cinv_values_nodup (checkin_invariant d0 init epoch h ops hok) hw
+    (Nat.lt_of_le_of_lt (checkin_spent_le d0 init epoch ops) hb)
+
+/-- **A value is used only when a stored boundary covers it**: for an obedient application every
+value that reached the wire sits at a position not after the position of the boundary held in
+storage (a restart resumes with `boundary + 1`), and such a boundary exists. -/
+theorem checkin_used_only_if_covered (d0 : Option Nat) (init epoch : Nat) (h : CStart d0 init epoch)
+    (ops : List COp) (hok : ∀ op ∈ ops, COpOk op) (hw : WellBehaved d0 init epoch ops) :
+    let s := (cReach d0 init epoch ops).1
+    let g := (cReach d0 init epoch ops).2
+    s.used = g.upos.map cval ∧
+    ∀ p ∈ g.upos, ∃ d, s.durable = some d ∧ d = cval g.dpos ∧ p ≤ g.dpos := by
+  intro s g
+  have hi : CInv s g := checkin_invariant d0 init epoch h ops hok
+  refine ⟨hi.used_eq, fun p hp => ?_⟩
+  obtain ⟨_, _, ⟨d, hd⟩, h4⟩ := (hi.wl hw).1 p hp
+  exact ⟨d, hd, (hi.dur d hd).1, h4⟩
+
+/-- **A restart resumes strictly past every used value**: after `boot` the counter sits at the
+position of the stored boundary, so the next value (`next()` = position + 1) is past every used one. -/
+theorem checkin_restart_resumes_past_used (d0 : Option Nat) (init epoch : Nat)
+    (h : CStart d0 init epoch) (ops : List COp) (hok : ∀ op ∈ ops, COpOk op) (i : Nat) (hi : i < U32)
+    (hw : WellBehaved d0 init epoch ops) :
+    let s' := (cReach d0 init epoch (ops ++ [.boot i])).1
+    let g' := (cReach d0 init epoch (ops ++ [.boot i])).2
+    s'.ctr.next = cval (g'.vpos + 1) ∧ s'.used = g'.upos.map cval ∧ ∀ p ∈ g'.upos, p < g'.vpos + 1 := by
+  intro s' g'
+  have hok' : ∀ op ∈ ops ++ [COp.boot i], COpOk op := by
+    intro op hop
+    rcases List.mem_append.mp hop with h1 | h1
+    · exact hok op h1
+    · simp only [List.mem_singleton] at h1; subst h1; exact hi
+  have hinv : CInv s' g' := checkin_invariant d0 init epoch h (ops ++ [.boot i]) hok'
+  have hrun : ∀ (ops : List COp) (s : CSys) (o : COp), cRun s (ops ++ [o]) = cStep (cRun s ops) o := by
+    intro ops
+    induction ops with
+    | nil => intro s o; rfl
+    | cons a as ih => intro s o; simp only [List.cons_append, cRun]; exact ih _ _
+  have hwell : s'.well = true := by
+    show (cRun (CSys.boot d0 init epoch) (ops ++ [.boot i])).well = true
+    rw [hrun]; exact hw
+  have hpk : peek1 s' = 0 := by
+    show peek1 (cRun (CSys.boot d0 init epoch) (ops ++ [.boot i])) = 0
+    rw [hrun]; rfl
+  refine ⟨?_, hinv.used_eq, fun p hp => ?_⟩
+  · have hU := U32_eq
+    unfold CK.next; rw [hinv.val.1]; simp only [cval, U32_eq]; omega
+  · have := ((hinv.wl hwell).1 p hp).2.1
+    rw [hpk] at this; omega
+
+/-- **The `value == next_epoch` test cannot be stepped over** (also by `advance_by`, which
+re-anchors): the position of the value is always strictly before the position of the in-memory
+boundary and within one epoch of it; `advance` hits the equality exactly when the positions meet
+(`ck_advance_eq`), `advance_by` re-anchors exactly when the jump reaches it (`ck_advanceBy_eq`). -/
+theorem checkin_boundary_reached (d0 : Option Nat) (init epoch : Nat) (h : CStart d0 init epoch)
+    (ops : List COp) (hok : ∀ op ∈ ops, COpOk op) :
+    let s := (cReach d0 init epoch ops).1
+    let g := (cReach d0 init epoch ops).2
+    g.vpos < g.npos ∧ g.npos ≤ g.vpos + epoch ∧
+    ((s.ctr.advance).2.isSome ↔ g.vpos + 1 = g.npos) ∧
+    ∀ delta, ((s.ctr.advanceBy delta).2.isSome ↔ g.vpos + delta ≥ g.npos) := by
+  intro s g
+  have hinv : CInv s g := checkin_invariant d0 init epoch h ops hok
+  obtain ⟨hv, hn, h1, h2⟩ := hinv.val
+  have hep : s.ctr.epoch = epoch := by
+    have : ∀ (ops : List COp) (s0 : CSys), (cRun s0 ops).ctr.epoch = s0.ctr.epoch := by
+      intro ops
+      induction ops with
+      | nil => intro s0; rfl
+      | cons a as ih => intro s0; simp only [cRun]; rw [ih, cstep_epoch]
+    exact this ops _
+  refine ⟨h1, by omega, ?_, ?_⟩
+  · rw [ck_advance_eq hv hn h1 h2 hinv.ep.2]
+    by_cases hc : g.vpos + 1 = g.npos
+    · rw [if_pos hc]; simp [hc]
+    · rw [if_neg hc]; simp [hc]
+  · intro delta
+    rw [ck_advanceBy_eq delta hv hn h1 h2 hinv.ep.2]
+    by_cases hc : g.vpos + delta ≥ g.npos
+    · rw [if_pos hc]; simp [hc]
+    · rw [if_neg hc]; simp; omega
+
+example : CStart (some 4294967290) 7 10 := ⟨fun d hd => by
+  simp only [Option.some.injEq] at hd; subst hd; decide, by decide, by decide, by decide⟩
+/-- an obedient history across the wrap of the u32: restart, store, send, advance … -/
+example : WellBehaved (some 4294967290) 0 4
+    [.persist, .use, .advanceStore, .use, .advanceStore, .boot 0, .persist, .use, .advance] := by decide
+example : (cReach (some 4294967290) 0 4
+    [.persist, .use, .advanceStore, .use, .advanceStore, .boot 0, .persist, .use, .advance]).1.used
+    = [4294967295, 4294967292, 4294967291] := by decide
+/-- the hypothesis is needed: sending before storing after a restart repeats a value -/
+example : (cRun (CSys.boot (some 100) 0 10) [.use, .boot 0, .use]).used = [101, 101] ∧
+    ¬ WellBehaved (some 100) 0 10 [.use, .boot 0, .use] := by decide
+
+end C12
